@@ -354,7 +354,11 @@ class EditableModule(object):
                     raise RuntimeError("The method to be asserted must have a tensor output")
                 else:
                     output = output.sum()
-            grad_tensors = torch.autograd.grad(output, copy_tensors0, retain_graph=True, allow_unused=True)
+            if output.requires_grad:
+                grad_tensors = torch.autograd.grad(output, copy_tensors0, retain_graph=True, allow_unused=True)
+            else:
+                # the output does not depend on any tensor of the object
+                grad_tensors = [None] * len(copy_tensors0)
         finally:
             # return the original tensors to exactly the places they were taken
             # from (also if the method raises, and also if running the method has
